@@ -61,6 +61,9 @@ CHECKS = {
  "C20": ("reference-model monitor: compiled programs print json_stringify / from_json round trips / == / < / dict-key collisions for generated models; Python's json parser and tuple comparison are the oracle",
          "Hundreds (thorough: thousands) of declaration x value observations over all field types and boundary values are made on real compiled programs; JSON is compared after parsing (spelling-neutral).", 
          "Clone independence is not observable on this tree (`.clone()` on a model is rejected by the checker) and is reported as such.", "5/C20"),
+ "C13": ("metamorphic monitor: a building, running generated host P and its consistently renamed twin rho(P) (one identifier position x one name class at a time) through the real `incan --check` / `incan build` / execution; equality of exit status and stdout",
+         "Position x name-class cells (locals, parameters, loop/match/comprehension variables, functions, methods, fields, types, variants x Rust-only keywords, names the generated code relies on, case and underscore/digit shapes) are covered one renaming at a time so a failure is attributable.",
+         "Renaming is textual over code segments only (string literal text is untouched, f-string sub-expressions are renamed); hosts print nothing derived from identifiers.", "5/C13"),
 }
 WIP = "check not built yet in this round (work in progress; see DESIGN.md section 5 for the planned monitor)"
 ALL = ["C%02d" % i for i in range(1, 21)]
